@@ -4,6 +4,7 @@ mod calls;
 mod convert;
 mod docs;
 mod project;
+mod scale;
 mod shared;
 mod stdmeta;
 mod subsets;
@@ -30,6 +31,7 @@ fn main() {
         "meta" => meta::main(&args[1..]),
         "shared" => shared::main(&args[1..]),
         "group" => group::main(&args[1..]),
+        "scale" => scale::main(&args[1..]),
         "convert" => convert::main(&args[1..]),
         "list" => list::main(&args[1..]),
         "builder" => builder::main(&args[1..]),
